@@ -144,7 +144,7 @@ BOUNDED_NOTE = ("NOT a proof: bound = G1 programs of nesting depth <= 2 (quick, 
                 "suspension / probe points) on CPython 3.12.1 and 3.11.7; thorough adds 3.10.13, 3.9.18 and a strided sample of depth 3; the "
                 "ground truth is a shadow log kept by the generated managers; `match` statements and >2 items per with are not generated")
 PROPS["C01"] = dict(
-    level="exploration", contracts=["contracts.lowlevel"], unit_filter=lambda u: u.name.startswith("C01."),
+    level="exploration", contracts=["contracts.inspect311"],
     legs=[g1("suspended", PY312, "py312"), g1("suspended", PY311, "py311"), corpus("exits", PY312, "py312"),
           corpus("exits", PY311, "py311", True), g1("suspended", PY310, "py310", thorough_only=True, vendor=True),
           g1("suspended", PY39, "py39", thorough_only=True, vendor=True), g1("suspended", PY312, "py312", 3, True, stride=40)],
@@ -155,7 +155,7 @@ PROPS["C01"] = dict(
           "not make this a proof.",
     note=BOUNDED_NOTE)
 PROPS["C02"] = dict(
-    level="exploration", contracts=[], legs=[g1("running", PY312, "py312"), g1("running", PY311, "py311"),
+    level="exploration", contracts=["contracts.inspect311"], legs=[g1("running", PY312, "py312"), g1("running", PY311, "py311"),
                                              g1("running", PY310, "py310", thorough_only=True, vendor=True),
                                              g1("running", PY39, "py39", thorough_only=True, vendor=True),
                                              g1("running", PY312, "py312", 3, True, stride=40)],
@@ -187,8 +187,9 @@ PROPS["C20"] = dict(
           "trickery failures and the set_trickery_enabled mode switch are proved deductively.",
     note=BOUNDED_NOTE + "; what gc.get_referents reports is interpreter behaviour")
 PROPS["C06"] = dict(
-    level="exploration", contracts=[], static=["contracts.c06_effects"],
-    legs=[g1("twin", PY312, "py312"), g1("twin", PY311, "py311", thorough_only=True)],
+    level="exploration", contracts=["contracts.inspect311"], static=["contracts.c06_effects"],
+    legs=[g1("twin", PY312, "py312"), g1("twin", PY311, "py311", thorough_only=True),
+          dict(name="c07_preempt", cmd="PYTHONPATH={repo} " + PY312 + " legs/c07_preempt.py")],
     technique=BOUNDED_TECH + " (twin runs)",
     claim="Bounded stand-in: every program of the family run twice, un-observed and with two extractions at every suspension point: identical "
           "traces, the two extractions compare equal, managers are collectable once results are dropped. Reference-count balance of the "
@@ -234,20 +235,29 @@ PROPS["C09"] = dict(
     note="contextlib private attributes (_exit_callbacks, gen, func/args/kwds) assumed as observed on the running interpreter; "
          "description TEXT beyond the method name is not specified; varname f-string not decoded deductively (leg checks it)")
 PROPS["C07"] = dict(
-    level="other", contracts=["contracts.glue_small", "contracts.c04"],
+    level="other", contracts=["contracts.glue_small", "contracts.c04", "contracts.inspect311"],
     unit_filter=lambda u: u.name.startswith("C07.") or u.name in ("C04.try_from", "C04.slice_block", "C04.limit_block"),
-    legs=[dict(name="c07_threads", cmd="PYTHONPATH={repo} " + PY312 + " legs/c07_threads.py")],
+    legs=[dict(name="c07_threads", cmd="PYTHONPATH={repo} " + PY312 + " legs/c07_threads.py"),
+          dict(name="c07_preempt", cmd="PYTHONPATH={repo} " + PY312 + " legs/c07_preempt.py"),
+          dict(name="c07_preempt_py311", cmd="PYTHONPATH={repo} " + PY311 + " legs/c07_preempt.py", thorough_only=True)],
     technique=TECH + "; bounded blocked-thread leg and sampled racing-thread stress",
     explanation="Deductive part (all inputs): unwrap_thread returns [] unless the thread was alive BEFORE and AFTER the sys._current_frames() "
                 "read (in that order: the read is bracketed by the two liveness checks) and a frame was found, else StackSlice(inner=that "
                 "frame); with the C04 contracts (try_from: the f_back chain of that frame, outermost first) every reported frame is on the "
                 "f_back chain of the thread's current frame, hence belongs to that thread (CPython axiom). Bounded part: a thread blocked at a "
                 "fixed point, depth 1..6 x manager nesting 0..2: frames == f_back truth, exact contexts, no warning; nothing before start / "
-                "after finish. NOT decided: 'never crashes nor raises under every interleaving' and the consistency of the low-level snapshot "
-                "(inspect_frame's retry loop is not under contract; the racing-thread stress is a sample, not an exploration of schedules; "
-                "no yield-point hooks were added to /repo because no engine of this family would consume them).",
-    claim="unwrap_thread's liveness bracketing and its composition with the slicing contracts proved; blocked-thread exactness checked on a "
-          "bounded exhaustive family; memory safety under races and the snapshot-validation protocol remain unverified assumptions.",
+                "after finish. inspect_frame (3.11+) is under contract with every read of f_lasti, of a raw struct field and of a "
+                "value-stack slot modelled as a VOLATILE read logged in ghost state: on the path that leaves the 10-attempt retry loop by "
+                "break all f_lasti observations of that attempt equal lasti_before, every slot read is immediately preceded by such a check "
+                "and the attempt ends with one; an AssertionError propagates only if f_lasti is unchanged, otherwise the attempt is retried; "
+                "ten failures raise RuntimeError; a running frame's stack is cut to the depth of the FIRST exception-table entry covering "
+                "the lasti of the SAME attempt; slot indices stay within the validated extent; the handler-chain walk returns the outside-in "
+                "chain (relative to sorted_disjoint(handlers)). Deterministic preemption leg: a sys.settrace line hook on the inspecting "
+                "thread lets the target advance at EVERY line of inspect_frame (start position x progress x line), the accepted snapshot "
+                "must be consistent with one position.  NOT decided: 'never crashes' (memory safety of the ctypes reads under races; ABA).",
+    claim="unwrap_thread's liveness bracketing, its composition with the slicing contracts, and inspect_frame's snapshot-validation protocol "
+          "proved (volatile-read model); blocked-thread exactness and every preemption point of the snapshot code checked on bounded "
+          "exhaustive families; memory safety of the raw reads under races remains an unverified assumption.",
     note="memory safety / crash-freedom of the ctypes reads under concurrent modification is assumed, not checked; schedules are not explored")
 PROPS["C14"] = dict(
     level="other", contracts=["contracts.glue_small", "contracts.c12", "contracts.extract_iter"],
